@@ -50,11 +50,11 @@ enum { UP = 0, DOWN = 1 };
 typedef struct { int dir, size, to, delay; } TSpec;      /* timeout in ms (= ticks), delay = ticks the server takes to answer */
 typedef struct { int kind, k, arg; } Dev;
 enum { D_NONE, D_ABORT, D_ABORT_IDX, D_ABORT_SUB, D_SILENT, D_LATE_IDLE, D_LATE_NEXT, D_TOGGLE, D_FOREIGN, D_SIZE_MORE,
-       D_SIZE_LESS, D_EXP_FOR_SEG, D_SEG_FOR_EXP, D_MORE_DATA, D_LESS_DATA, D_BUSYREQ, D_IDLE_BEFORE, D_NKINDS };
+       D_SIZE_LESS, D_EXP_FOR_SEG, D_SEG_FOR_EXP, D_MORE_DATA, D_LESS_DATA, D_BUSYREQ, D_IDLE_BEFORE, D_CHAIN, D_NKINDS };
 static const char *DEVNAME[D_NKINDS] = { "none", "abort", "abort-other-index", "abort-other-subindex", "silent", "late-answer-while-idle",
     "late-answer-into-next-transfer", "wrong-toggle", "foreign-response", "announced-size-larger", "announced-size-smaller",
     "expedited-answer-to-segmented", "segmented-answer-to-expedited", "more-data-than-announced", "less-data-than-announced",
-    "request-while-busy", "response-while-idle" };
+    "request-while-busy", "response-while-idle", "request-from-the-completion-callback" };
 static const Dev NODEV = { D_NONE, 0, 0 };
 static const uint32_t OWN_CODES[] = { 0x05040000u, 0x05030000u, 0x05040001u, 0x06040043u, 0x06070012u, 0x06070013u };
 
@@ -88,6 +88,8 @@ static struct {
     int      stale; uint8_t stale_frm[8];   /* late answer of the previous transfer, delivered after the next request */
     int      done[MAXSEQ]; uint32_t code[MAXSEQ], fin_os[MAXSEQ]; int dirs[MAXSEQ];   /* per transfer: callbacks, code, object size served */
     int      act_init, tim_init;
+    int      chain;                  /* 1/2: the completion callback of this transfer requests an upload/download itself */
+    int      chained, chain_err, chain_seen;   /* that request was issued; its return code; its initiate frames seen on the bus */
     uint64_t trace;
 } H;
 
@@ -161,7 +163,25 @@ static int tmr_used_act(void) { int n = 0; for (CO_TMR_ACTION *a = Node.Tmr.Acts
 static int tmr_used_tim(void) { int n = 0; for (CO_TMR_TIME *t = Node.Tmr.Free; t && n <= NC_TMR; t = t->Next) n++; return (int)Node.Tmr.Max - n; }
 
 /* ------------------------------------------------------------------ implementation steps and observation */
-static void csdo_cb(CO_CSDO *c, uint16_t idx, uint8_t sub, uint32_t code) { (void)c; w_cb(CB_CSDO_DONE, ((uint32_t)idx << 8) | sub, code, 0); }
+/* D_CHAIN: the application requests its next transfer from inside the completion callback.  The statement allows two outcomes: the
+ * request is refused and leaves no trace, or it is accepted and then is a transfer like any other - here the server stays silent,
+ * so it must end exactly once with 0504 0000h and one abort frame after its own timeout, and leave no timer behind. */
+#define CH_TO   3
+#define CH_IDX  0x2FE0
+#define CH_SUB  0x11
+#define CH_MARK 0xC4A1u
+static uint8_t ChainBuf[8];
+static void chain_cb(CO_CSDO *c, uint16_t idx, uint8_t sub, uint32_t code) { (void)c; w_cb(CB_USER, CH_MARK, code, ((uint32_t)idx << 8) | sub); }
+static void csdo_cb(CO_CSDO *c, uint16_t idx, uint8_t sub, uint32_t code)
+{
+    w_cb(CB_CSDO_DONE, ((uint32_t)idx << 8) | sub, code, 0);
+    if (H.chain) {
+        CO_ERR e = H.chain == 1 ? COCSdoRequestUpload(c, CO_DEV(CH_IDX, CH_SUB), ChainBuf, sizeof ChainBuf, chain_cb, CH_TO)
+                                : COCSdoRequestDownload(c, CO_DEV(CH_IDX, CH_SUB), ChainBuf, 3, chain_cb, CH_TO);
+        H.chain = 0; H.chained = 1; H.chain_err = (int)e; H.chain_seen = 0;
+        mc_log("      request from inside the completion callback -> %d\n", (int)e);
+    }
+}
 
 static void log_obs(const char *what)
 {
@@ -195,6 +215,7 @@ static void observe(React *r)
     for (int i = 0; i < OBS.ntx && i < W_MAX_TX; i++) {
         const WFrame *f = &OBS.tx[i];
         if (f->id != TXID || f->dlc != 8) FAIL("csdo-request-frames", "unexpected frame %03X dlc %d on the bus", f->id, f->dlc);
+        else if (H.chained && H.chain_err == (int)CO_ERR_NONE && f->d[0] != 0x80 && f->d[1] == (uint8_t)CH_IDX && f->d[2] == (uint8_t)(CH_IDX >> 8) && f->d[3] == CH_SUB) H.chain_seen++;
         else if (f->d[0] == 0x80) {
             r->nabort++; r->acode = w_get32(f->d + 4);
             if (f->d[1] != (uint8_t)H.idx || f->d[2] != (uint8_t)(H.idx >> 8) || f->d[3] != H.sub)
@@ -293,11 +314,41 @@ static int foreign_expected(int a)
 }
 
 /* ------------------------------------------------------------------ transfer engine */
+static void chain_aftermath(void)
+{
+    int ncb = 0, nab = 0, at = 0;
+    H.chained = 0;
+    if (H.chain_err != (int)CO_ERR_NONE) return;                 /* refused: the ordinary checks of finish() (frames, timers) prove that nothing is left */
+    if (H.chain_seen != 1) { FAIL("csdo-chained-request", "request from inside the completion callback accepted, but %d initiate frame(s) for it on the bus", H.chain_seen); return; }
+    for (int i = 1; i <= CH_TO + 1 && !FAILED && !ncb; i++) {
+        w_obs_clear(); w_tick(&Node, 1); mc_steps++;
+        H.trace = (H.trace ^ w_obs_hash()) * 0x9E3779B97F4A7C15ull; H.trace ^= H.trace >> 29;
+        for (int j = 0; j < OBS.ncb && j < W_MAX_CB; j++) {
+            if (OBS.cb[j].kind == CB_CSDO_DONE) FAIL("csdo-callback-count", "second completion callback (code %08X) for the finished transfer", OBS.cb[j].b);
+            else if (OBS.cb[j].kind == CB_USER && OBS.cb[j].a == CH_MARK) {
+                ncb++; at = i;
+                if (OBS.cb[j].b != CODE_TMO) FAIL("csdo-callback-code", "the transfer requested from the completion callback got no response and ends with code %08X instead of 05040000", OBS.cb[j].b);
+            }
+        }
+        for (int j = 0; j < OBS.ntx && j < W_MAX_TX && !FAILED; j++) {
+            const WFrame *f = &OBS.tx[j];
+            if (f->id == TXID && f->dlc == 8 && f->d[0] == 0x80 && f->d[1] == (uint8_t)CH_IDX && f->d[2] == (uint8_t)(CH_IDX >> 8) && f->d[3] == CH_SUB && w_get32(f->d + 4) == CODE_TMO) nab++;
+            else FAIL("csdo-request-frames", "unexpected frame %03X#%02X.. while the transfer requested from the completion callback waits for its answer", f->id, f->d[0]);
+        }
+    }
+    if (FAILED) return;
+    if (ncb == 0) FAIL("csdo-callback-count", "the request issued from inside the completion callback was accepted, but that transfer never completes (no callback within %d ticks, timeout %d)", CH_TO + 1, CH_TO);
+    else if (ncb > 1) FAIL("csdo-callback-count", "%d completion callbacks for the transfer requested from the completion callback", ncb);
+    else if (at < CH_TO) FAIL("csdo-early-timeout", "the transfer requested from the completion callback timed out after %d tick(s), timeout %d", at, CH_TO);
+    else if (nab != 1) FAIL("csdo-timeout-abort-frame", "%d abort frame(s) for the timed-out transfer requested from the completion callback", nab);
+}
 static void finish(uint32_t code)
 {
     int s = H.seq;
     H.active = 0; H.done[s]++; H.code[s] = code; H.fin_os[s] = H.os;
     mc_log("    transfer %d finished with code %08X\n", s, code);
+    if (H.chained) chain_aftermath();
+    H.chain = 0;
     check_guards(s);
     if (!FAILED && code == 0 && H.t.dir == UP) check_content(s, H.os, "");
     if (!FAILED && !noleak) {
@@ -445,6 +496,7 @@ static int tr_step(Dev dv)
     uint8_t f[8]; int last = 0; Allow al; char what[120];
     memset(&al, 0, sizeof al);
     if (dv.kind == D_BUSYREQ) { busy_requests(); if (FAILED) return 0; dv.kind = D_NONE; }
+    if (dv.kind == D_CHAIN) { H.chain = 1 + (dv.arg & 1); dv.kind = (dv.arg >> 1) == 0 ? D_NONE : (dv.arg >> 1) == 1 ? D_ABORT : D_SILENT; dv.arg = 0; }
     if (dv.kind == D_SILENT || dv.kind == D_LATE_IDLE || dv.kind == D_LATE_NEXT) {
         srv_response(f, &last);
         snprintf(what, sizeof what, "request %d stayed unanswered", H.k);
@@ -509,6 +561,8 @@ static int menu(Dev *out, int has_next, int mode)
         ADD(D_ABORT, 0); for (int a = 1; a <= N_OWN_CODES; a++) ADD(D_ABORT, a); ADD(D_ABORT_IDX, 0); ADD(D_ABORT_SUB, 0); ADD(D_SILENT, 0); ADD(D_LATE_IDLE, 0);
         if (has_next) ADD(D_LATE_NEXT, 0);
         ADD(D_BUSYREQ, 0);
+        if (k == 0) { ADD(D_CHAIN, 0); ADD(D_CHAIN, 1); }           /* conforming server, the completion callback requests an upload / a download */
+        ADD(D_CHAIN, 2); ADD(D_CHAIN, 5);                          /* ... after a server abort at this step / after the timeout at this step */
         if (k >= 1) ADD(D_TOGGLE, 0);
         for (int a = 0; a < 5; a++) if (!foreign_expected(a)) ADD(D_FOREIGN, a);
         if (H.t.dir == UP && k == 0) { ADD(D_SIZE_MORE, 0); if (S > 1) ADD(D_SIZE_LESS, 0); if (S > 5) ADD(D_EXP_FOR_SEG, 0); if (S <= 4) ADD(D_SEG_FOR_EXP, 0); }
